@@ -1,6 +1,7 @@
 import EinoV.Oracle.C04
 import EinoV.Model.C19
 import EinoV.Model.C19Merge
+import EinoV.Model.C19Route
 import EinoV.Expected.C19
 
 namespace EinoV.Oracle.C19
@@ -40,7 +41,108 @@ def handleMerge (c : Json) : JE Json := do
   pure (Json.mkObj [("admissible", Json.bool v.admissible), ("release", J.mkNats release),
     ("ended", J.mkNats v.ended), ("stillOpen", J.mkNats v.stillOpen)])
 
+/-- the facts the theorems are proved for, as the `Facts` of the copy-routing model -/
+def routeFacts : Route.Facts :=
+  { missing := Route.Missing.ofFact Expected.C19.missingDpsArm,
+    closesNonData := Expected.C19.closesNonDataValues,
+    skippedCloses := Expected.C19.skippedChannelClosesValues,
+    skipReleasesStored := Expected.C19.skipReleasesStored,
+    closesSurplus := Expected.C19.closesSurplus,
+    closesReplaced := Expected.C19.closesReplaced }
+
+def parseKind : String → JE Route.Kind
+  | "input" => pure .input
+  | "dataonly" => pure .dataonly
+  | "dep" => pure .dep
+  | "branchend" => pure .branchend
+  | k => throw s!"successor kind {k}"
+
+def parseData : String → JE Route.Data
+  | "" => pure .start
+  | "start" => pure .start
+  | "none" => pure .none
+  | "static" => pure .static
+  | "indirect" => pure .indirect
+  | "pdata" => pure .pdata
+  | d => throw s!"successor data {d}"
+
+def parseCond : String → JE Route.Cond
+  | "none" => pure .none
+  | "value" => pure .value
+  | "prefix" => pure .pfx
+  | "multi-value" => pure .multiValue
+  | "multi-prefix" => pure .multiPfx
+  | k => throw s!"condition {k}"
+
+/-- workflow case: {"kind":"workflow", "chunks", "succ":[{"key","kind","data"}], "cond", "select",
+    "endData", "consume"} → where every copy of the producer's stream ends up, and what the
+    producer must therefore observe. -/
+def handleWorkflow (c : Json) : JE Json := do
+  let succ ← (J.arrD c "succ").mapM (fun j => do
+    pure ({ key := ← J.str j "key", kind := ← parseKind (← J.str j "kind"),
+            data := ← parseData (J.strD j "data" "") } : Route.Succ))
+  let consume ← J.int c "consume"
+  let sel ← (J.arrD c "select").mapM J.asStr
+  let wc : Route.Case :=
+    { chunks := ← J.nat c "chunks", succ := succ, cond := ← parseCond (← J.str c "cond"),
+      select := sel, endData := J.boolD c "endData" false,
+      consume := if consume < 0 then none else some consume.toNat }
+  let fs := Route.fates routeFacts wc
+  let W := (Route.writeToEntries wc).length
+  let B := Route.nBranches wc
+  let nsel := (Route.selectedEntries wc).length
+  let dups := ((Route.selectedEntries wc).filter (·.replaced)).length
+  pure (Json.mkObj [("fates", J.mkStrs (fs.map Route.Fate.name)),
+    ("copies", (fs.length : Nat)),
+    ("ledgerCreated", ((distribute routeFacts.closesSurplus routeFacts.closesReplaced W B nsel dups).created : Nat)),
+    ("dropped", ((fs.filter Route.Fate.isDropped).length : Nat)),
+    ("mustRelease", Json.bool (Route.mustRelease routeFacts wc)),
+    ("mustFinish", Json.bool (Route.mustFinish routeFacts wc)),
+    ("noDataPreds", J.mkStrs (((Route.entries wc).filter (fun e => e.dps.isNone)).map (·.key)))])
+
+def parseOrder : String → JE Route.Order
+  | "value-first" => pure .valueFirst
+  | "skip-first" => pure .skipFirst
+  | "free" => pure .free
+  | k => throw s!"order {k}"
+
+def parseXData : String → JE Route.XData
+  | "adata" => pure .adata
+  | "ainput" => pure .ainput
+  | "" => pure .start
+  | "start" => pure .start
+  | "none" => pure .none
+  | "static" => pure .static
+  | d => throw s!"end data {d}"
+
+/-- cross case: {"kind":"cross", "chunks", "order", "ends":[{"key","data","mode"}], "select",
+    "endData", "consume"} → the fate of every copy of A's stream -/
+def handleCross (c : Json) : JE Json := do
+  let ends ← (J.arrD c "ends").mapM (fun j => do
+    pure ({ key := ← J.str j "key", data := ← parseXData (J.strD j "data" ""),
+            drains := J.strD j "mode" "drain" == "drain" } : Route.XEnd))
+  let consume ← J.int c "consume"
+  let sel ← (J.arrD c "select").mapM J.asStr
+  let xc : Route.XCase :=
+    { chunks := ← J.nat c "chunks", order := ← parseOrder (← J.str c "order"), ends := ends,
+      select := sel, endData := J.boolD c "endData" false,
+      consume := if consume < 0 then none else some consume.toNat }
+  let fs := Route.xFates routeFacts xc
+  let es := Route.xEntries xc
+  pure (Json.mkObj [("fates", J.mkStrs (fs.map Route.Fate.name)),
+    ("copies", (fs.length : Nat)),
+    ("ledgerCreated", ((distribute routeFacts.closesSurplus routeFacts.closesReplaced es.length 0 0 0).created : Nat)),
+    ("dropped", ((fs.filter Route.Fate.isDropped).length : Nat)),
+    ("mustRelease", Json.bool (Route.xMustRelease routeFacts xc)),
+    ("mustFinish", Json.bool (Route.xMustFinish routeFacts xc)),
+    ("inScope", Json.bool (Route.xInScope xc)),
+    ("skippedBefore", J.mkStrs ((es.filter (fun e => e.skip == .before || e.skip == .either)).map (·.key))),
+    ("skippedAfter", J.mkStrs ((es.filter (fun e => e.skip == .after || e.skip == .either)).map (·.key)))])
+
 def handle (c : Json) : JE Json :=
-  if J.strD c "kind" "" == "merge" then handleMerge c else handleGraph c
+  if J.strD c "kind" "" == "merge" then handleMerge c
+  else if J.strD c "kind" "" == "workflow" then handleWorkflow c
+  else if J.strD c "kind" "" == "cross" then handleCross c
+  else handleGraph c
 
 end EinoV.Oracle.C19
